@@ -29,25 +29,43 @@ TOTAL_MAX = 253
 
 
 def lemma_label_start(facts, f):
-    """All definitions of the local named `label_start`: the constant 0, or a copy of the index component of enumerate().next()."""
-    dbg = {n: l for l, n in f['debug']}
-    ls = dbg.get('label_start')
-    if ls is None:
-        return None, 'no local named label_start'
+    """Every local used as the START of a range that slices the input (`name[start..i]`, `name[start..]`) is only ever assigned the
+    constant 0 or the index component of enumerate().next() - found by that role, whatever the variable is called."""
     defs = F.single_defs(f)
-    srcs = []
+    starts = set()
     for bi, b in F.blocks(f):
         for s in b['stmts']:
-            if s['k'] == 'assign' and not s['place']['proj'] and s['place']['local'] == ls:
-                e = F.expr_rv(f, defs, s['rv'])
-                if e == ('const', 0):
-                    srcs.append('0')
-                    continue
-                rs = F.roots(f, defs, s['rv']['x']) if s['rv']['k'] == 'use' else []
-                if rs and all(r[0] == 'call' and 'Enumerate' in r[1] and r[1].endswith('::next') for r in rs):
-                    srcs.append('enumerate-index')
-                else:
-                    srcs.append('other:' + str(e)[:60])
+            if s['k'] == 'assign' and s['rv']['k'] == 'aggregate' and str(s['rv'].get('adt', '')).startswith(('std::ops::Range', 'core::ops::Range')) and s['rv']['ops']:
+                o = s['rv']['ops'][0]
+                if o.get('k') in ('copy', 'move') and not o['place']['proj']:
+                    l = o['place']['local']
+                    # look through one temporary
+                    d = defs.get(l)
+                    if d and d[0] == 'rv' and d[1]['k'] == 'use' and d[1]['x']['k'] in ('copy', 'move') and not d[1]['x']['place']['proj']:
+                        l = d[1]['x']['place']['local']
+                    starts.add(l)
+    # keep the multiply-assigned ones (user variables carried across iterations); single-assignment temporaries resolve through them
+    cands = []
+    for l in sorted(starts):
+        n = sum(1 for _, b in F.blocks(f) for s in b['stmts'] if s['k'] == 'assign' and not s['place']['proj'] and s['place']['local'] == l)
+        if n >= 2:
+            cands.append(l)
+    if not cands:
+        return None, 'no loop-carried range start found'
+    srcs = []
+    for ls in cands:
+        for bi, b in F.blocks(f):
+            for s in b['stmts']:
+                if s['k'] == 'assign' and not s['place']['proj'] and s['place']['local'] == ls:
+                    e = F.expr_rv(f, defs, s['rv'])
+                    if e == ('const', 0):
+                        srcs.append('0')
+                        continue
+                    rs = F.roots(f, defs, s['rv']['x']) if s['rv']['k'] == 'use' else []
+                    if rs and all(r[0] == 'call' and 'Enumerate' in r[1] and r[1].endswith('::next') for r in rs):
+                        srcs.append('enumerate-index')
+                    else:
+                        srcs.append('other:' + str(e)[:60])
     ok = bool(srcs) and all(x in ('0', 'enumerate-index') for x in srcs)
     return ok, srcs
 
